@@ -263,7 +263,7 @@ pub struct Host {
     /// requests handed to the host and not yet answered: id -> request
     pub pending: BTreeMap<u32, Req>,
     /// every invocation the host performed, in order
-    pub log: Vec<(u32, Req)>,
+    pub log: Vec<(u32, Req, (i32, String))>,
     pub runs: usize,
 }
 
@@ -438,7 +438,7 @@ impl Net {
                         let req = self.hosts[p].pending.remove(id).unwrap();
                         let name = self.hosts[p].peer.name.clone();
                         let r = self.services.call(&name, &req);
-                        self.hosts[p].log.push((*id, req));
+                        self.hosts[p].log.push((*id, req, r.clone()));
                         res.insert(*id, r);
                     }
                 }
